@@ -293,6 +293,7 @@ type Exec struct {
 	cli          bool                                 // interpreting cmd/jpgo: library calls are modelled, not inlined
 	curFuzzy     bool                                 // the path being interpreted is fuzzy (see pathInfo)
 	truncP       *bool                                // shared truncation flag of the rule's aggregate
+	budget       *int64                               // steps left for all the interpreters of one rule run (nil: no shared budget)
 	tableMode    bool                                 // evaluating the function-table constructor: maps keep their constant-keyed entries, loops are unrolled further
 	onExit       func(status AV, h *Heap, p pathInfo) // os.Exit in the command (J-ABS)
 	onPanic      func(arg AV, h *Heap, p pathInfo)    // an explicit panic (API rules)
@@ -688,6 +689,29 @@ func (x *Exec) runUp(fn *ssa.Function, args []AV, h *Heap, p pathInfo, up *stack
 		x.gap("call depth exceeded at "+fn.Name(), fn.Pos())
 		return
 	}
+	// a function that is already being interpreted twice up the stack: unbounded
+	// recursion over an unknown structure is not unrolled
+	nested := 0
+	for l := up; l != nil; l = l.up {
+		if l.fr != nil && l.fr.fn == fn {
+			nested++
+		}
+	}
+	if nested >= 2 {
+		// a pure function with only basic results: its deeper results are unknown
+		// values of their types, which loses nothing but precision
+		if pureBasicFunc(fn) {
+			var rets []AV
+			res := fn.Signature.Results()
+			for i := 0; i < res.Len(); i++ {
+				rets = append(rets, x.opaqueOf(res.At(i).Type(), "recursive result"))
+			}
+			k(rets, h, p, &frame{fn: fn, vals: map[ssa.Value]AV{}})
+			return
+		}
+		x.gap("recursive call of "+fn.Name()+" not unrolled further", fn.Pos())
+		return
+	}
 	fr := &frame{fn: fn, vals: map[ssa.Value]AV{}}
 	for i, prm := range fn.Params {
 		if i < len(args) {
@@ -855,7 +879,10 @@ func (a *activation) instrs(b *ssa.BasicBlock, idx int, fr *frame, h *Heap, p pa
 	x := a.x
 	for i := idx; i < len(b.Instrs); i++ {
 		x.steps++
-		if x.steps > x.limit {
+		if x.budget != nil {
+			*x.budget--
+		}
+		if x.steps > x.limit || (x.budget != nil && *x.budget < 0) {
 			if os.Getenv("EXEC_GAPDBG") != "" && !x.trunc {
 				fmt.Fprintf(os.Stderr, "TRUNC %s in %s\n", x.label, fname(fr.fn))
 			}
@@ -1232,6 +1259,50 @@ func (x *Exec) simple(in ssa.Instruction, fr *frame, h *Heap) bool {
 }
 
 // opaqueOf: an unknown value of the given type, in the right representation.
+// pureBasicFunc: fn writes nothing (no store outside its own locals, no map
+// update, no defer/go/send), calls only itself and builtins, and returns only
+// booleans, numbers or strings.
+func pureBasicFunc(fn *ssa.Function) bool {
+	res := fn.Signature.Results()
+	for i := 0; i < res.Len(); i++ {
+		if _, ok := res.At(i).Type().Underlying().(*types.Basic); !ok {
+			return false
+		}
+	}
+	for _, b := range fn.Blocks {
+		for _, in := range b.Instrs {
+			switch in := in.(type) {
+			case *ssa.Store:
+				a := in.Addr
+				for i := 0; i < 6; i++ {
+					switch y := a.(type) {
+					case *ssa.FieldAddr:
+						a = y.X
+						continue
+					case *ssa.IndexAddr:
+						a = y.X
+						continue
+					}
+					break
+				}
+				if _, local := a.(*ssa.Alloc); !local {
+					return false
+				}
+			case *ssa.MapUpdate, *ssa.Defer, *ssa.Go, *ssa.Send:
+				return false
+			case *ssa.Call:
+				if _, isB := in.Call.Value.(*ssa.Builtin); isB {
+					continue
+				}
+				if in.Call.StaticCallee() != fn {
+					return false
+				}
+			}
+		}
+	}
+	return true
+}
+
 func (x *Exec) opaqueOf(t types.Type, what string) AV {
 	switch u := t.Underlying().(type) {
 	case *types.Interface:
@@ -1489,6 +1560,11 @@ func (x *Exec) listLen(v AV, h *Heap) (min int, exact bool, known bool) {
 	return 0, false, false
 }
 
+func (c *Ctx) isNodeSlice(t types.Type) bool {
+	sl, ok := t.Underlying().(*types.Slice)
+	return ok && c.isASTNode(sl.Elem())
+}
+
 func (x *Exec) indexAddr(in *ssa.IndexAddr, fr *frame, h *Heap) bool {
 	base := x.val(fr, in.X)
 	iv := x.val(fr, in.Index)
@@ -1517,6 +1593,11 @@ func (x *Exec) indexAddr(in *ssa.IndexAddr, fr *frame, h *Heap) bool {
 		switch {
 		case base.what == "nodes":
 			// children of a node: arity is Shape S2's obligation
+		case x.c.isNodeSlice(in.X.Type()):
+			// children of some other node (a child's children, a node handed to a
+			// helper): how many it has depends on its type, which this
+			// interpreter does not track — not a verdict
+			x.gap("constant child index on a node other than the clause's own in "+fname(fr.fn), in.Pos())
 		case known && n < min:
 			x.ev("index-const", in, true, "")
 		case known && exact && !syntactic && (fr.fuzzy || x.curFuzzy):
